@@ -90,9 +90,35 @@ def general_jobs(tier):
     return js
 
 
+SAFE = ["--signed-overflow-check", "--div-by-zero-check", "--bounds-check", "--pointer-check", "--pointer-overflow-check"]
+A_A1_RIGHT = "a1 row: l->x, r->x <= INT32_MAX - 0x7fff (the complement overflows int32 in the rounding add: C12 job finding.row.a1.far_right)"
+
+
+def tight_jobs(tier):
+    """rasterize_edges_{1,4,8} on an exactly-sized heap image (seed C04-1)"""
+    js = []
+    th = tier != "quick"
+    cfgs = [(4, 0, 8, 0, 0), (4, 0, 8, 1, 0), (4, 0, 8, 0, 1), (8, 0, 8, 0, 0), (1, 0, 64, 0, 0)]
+    if th:
+        cfgs += [(4, 1, 8, 0, 0), (4, 0, 16, 0, 0), (8, 1, 8, 0, 0), (8, 0, 8, 1, 0), (8, 0, 8, 0, 1), (1, 1, 64, 0, 0), (1, 0, 64, 1, 0), (1, 0, 64, 0, 1)]
+    for n, acc, w, neg, case in cfgs:
+        nm = "tight.a%d%s.w%d%s%s" % (n, ".acc" if acc else "", w, ".negstride" if neg else "", ".tworows" if case else "")
+        js.append(Job(nm, "C04/row_tight.c", defines={"VC_N": n, "VC_ACC": acc, "VC_W": w, "VC_NEG": neg, "VC_CASE": case},
+                      unwind=w + 3 if n != 1 else w // 32 + 3, cbmc_flags=SAFE, kind="bounded",
+                      bound="image width <= %d pixels (span loops fully unrolled), 2 image rows, %s" % (w, "two consecutive sample rows across the row boundary, vertical edges" if case else "one sample row (t == b)"),
+                      functions=["rasterize_edges_%d%s" % (n, " (accessor build)" if acc else "")],
+                      domain="pixel storage = one heap object of exactly height*|stride| bytes (%s stride, no padding when width == %d); l->x, r->x any int32 "
+                             "(left of, inside, at and beyond the right edge); width 1..%d; %s: every access inside the object (CBMC pointer checks; "
+                             "natively ASan), bytes of the other row unchanged" % ("negative" if neg else "positive", w, w,
+                             "t on the last sample row of image row 0, b the first of row 1" if case else "t == b any y of either image row (last row included)"),
+                      timeout=900, min_props=20, assumptions=([A_A1_RIGHT] if n == 1 else [])))
+    return js
+
+
 def jobs(tier):
     js = []
     js += alloc_jobs(tier)
+    js += tight_jobs(tier)
     js += extent_jobs(tier)
     js += general_jobs(tier)
     return js
